@@ -39,8 +39,11 @@ Theorem c27_crash :
     \/ content target (r_dir r) = Some data.
 Proof. exact wfa_content. Qed.
 
-(* The same with file modes, plus what each way of ending means:
-   names that are neither the target nor an atomic-write temporary are never
+(* The same with file modes, plus what each way of ending means. [d] is ANY
+   initial directory: it may hold arbitrary leftovers of interrupted earlier
+   writes under temporary-prefixed names (of any length and content); they
+   never influence the result, because the temporary is a fresh, empty file.
+   Names that are neither the target nor an atomic-write temporary are never
    touched; nil = the new file (with the requested mode) is in place and
    nothing else changed; error = the target is as it was; and at most one
    name other than the target differs from before, a fresh prefixed one. *)
